@@ -213,7 +213,7 @@ fn observe(history: &[String], keys: &[Key2], file: &FileState) -> Observed {
     handle.join().unwrap_or_default()
 }
 
-const CHARS: [char; 16] = ['a', 'b', 'Z', '9', ' ', '+', ';', '_', 'é', '😀', '-', 'x', '\u{301}', '\u{200d}', 'ğ', '\u{2019}'];
+const CHARS: [char; 18] = ['a', 'b', 'Z', '9', ' ', '+', ';', '_', 'é', '😀', '-', 'x', '\u{301}', '\u{200d}', 'ğ', '\u{2019}', '\u{a0}', '\u{3000}'];
 
 fn random_key(rng: &mut Rng) -> Key2 {
     match rng.below(20) {
